@@ -1100,7 +1100,20 @@ def run(ck):
     only = os.environ.get("VERIF_C12_ONLY")
     if only:
         cases = [c for c in cases if any(o in case_id(c) for o in only.split(","))]
-    jobs = [(c, ck.seed, modes, keys) for c in cases]
+    # quick tier: the full vector set runs on one (seed-chosen) row per DISTINCT generated layout; the other rows that resolve to the
+    # same layout (e.g. 57 FCB rows share 4 layouts, 281 memcfg rows 8) get the template and one random vector.  Thorough: everything.
+    light = set()
+    rows_meta = (ck.generated_meta.get("RegLayouts") or {}).get("rows", {})
+    if ck.quick and rows_meta:
+        groups = {}
+        for c in cases:
+            groups.setdefault(rows_meta.get(case_id(c), case_id(c)), []).append(case_id(c))
+        rr = random.Random(f"C12/repr/{ck.seed}")
+        for _k, members in sorted(groups.items(), key=lambda kv: str(kv[0])):
+            keep = rr.choice(sorted(members))
+            light.update(m for m in members if m != keep)
+    ck.extra["quick_light_rows"] = len(light)
+    jobs = [(c, ck.seed, (["rand"] if case_id(c) in light else modes), keys) for c in cases]
     # big cases first for a better makespan
     order = {"fcb": 0, "fuses": 1, "cmpa": 2, "cfpa": 3, "xmcd": 4, "romcfg": 5}
     jobs.sort(key=lambda j: (order.get(j[0][0], 9), case_id(j[0])))
@@ -1133,7 +1146,9 @@ def run(ck):
     s = ck.stream("area_sweep", f"COMPLETE enumeration of the live database: {len(cases)} (family, revision, area, sub-feature/memory type) cases "
                   f"({', '.join(f'{k}={v}' for k, v in sorted(ck.extra['cases_by_area'].items()))}); per case the template plus the value vectors "
                   f"{'/'.join(dict.fromkeys(modes))} (all-zeros, all-ones{', alternating max/0' if 'even' in modes else ''}, every register as one whole value, "
-                  f"{nrand} random in-range vectors) over every visible register and bit-field go through "
+                  f"{nrand} random in-range vectors" + (f"; quick tier: the full vector set on one row per distinct layout ({len(cases) - len(light)} rows), "
+                  f"template + one random vector on the other {len(light)} rows that resolve to an identical layout" if light else "") +
+                  ") over every visible register and bit-field go through "
                   "template/YAML/schema/load/export/size/parse/verify/export/get_config/load/export and the independent computed-field checks; "
                   "non-trivial = distinct (case, vector)")
     s.exhaustive = True
